@@ -1,6 +1,7 @@
 //! rlh — correspondence harness: runs the risinglight implementation on cases read from stdin
 //! (one JSON value per line) and prints one JSON value per line.
 mod c06;
+mod c14;
 mod c18;
 mod sql;
 mod util;
@@ -23,6 +24,7 @@ fn main() {
         let v: serde_json::Value = serde_json::from_str(&line).expect("bad json");
         let r = match cmd {
             "c06" => util::guard(|| c06::run(&v)),
+            "c14" => util::guard(|| c14::run(&v)),
             "c18" => util::guard(|| c18::run(&v)),
             "crc" => util::guard(|| c18::crc(&v)),
             "sql" => util::guard(|| sql::run(&v)),
